@@ -760,6 +760,30 @@ pub fn generate(seed: u64, n: usize) -> Vec<(String, Input)> {
 }
 
 /// hand-written edge cases (regression corpus incl. witnesses of fixed findings)
+/// Extern types with sizes and alignments at every power of two (and around the 32-bit
+/// boundary) used as the only field, one of two fields, an array element and a base.
+pub fn extern_boundary_inputs() -> Vec<(String, Input)> {
+    let mut out = vec![];
+    let mut aligns: Vec<u128> = (0..63).map(|k| 1u128 << k).collect();
+    aligns.extend([3, 0xFFFF_FFFF, 0x1_0000_0001, (1u128 << 63) - 1]);
+    for (ai, a) in aligns.iter().enumerate() {
+        for size in [0u128, *a, a.saturating_mul(2).min((1u128 << 63) - 1)] {
+            for shape in 0..4 {
+                let body = match shape {
+                    0 => "type T { x: X }",
+                    1 => "type T { x: X, y: u8 }",
+                    2 => "type T { a: [X; 2] }",
+                    _ => "type T { #[base] b: X, p: *const u8 }",
+                };
+                let text = format!("#[size({size}), align({a})] extern type X; {body}");
+                let ptrw = if (ai + shape) % 2 == 0 { 8 } else { 4 };
+                out.push((format!("extern-boundary/a{a}-s{size}-{shape}"), Input::Dir { ptrw, files: vec![("c.pyxis".into(), text.into_bytes())], stray: None }));
+            }
+        }
+    }
+    out
+}
+
 pub fn corpus() -> Vec<(String, Input)> {
     let t = |s: &str| Input::Dir { ptrw: 8, files: vec![("c.pyxis".into(), s.as_bytes().to_vec())], stray: None };
     vec![
@@ -947,6 +971,7 @@ pub fn run(ctx: &mut Ctx) {
     let seed = ctx.seed;
     let n = ctx.tier.pick(16_000usize, 400_000);
     let mut inputs = corpus();
+    inputs.extend(extern_boundary_inputs());
     inputs.extend(generate(seed, n));
     let nshards = 16usize;
     let scratch = drive::Scratch::new("c12p");
